@@ -1,6 +1,102 @@
-(* C18: theorem statements are added when the corresponding Proofs file is merged. *)
+(* C18 overbook: one operator and one CPU per container, full-pool RAM, CPU-bound.
+   Statements only; every proof is [exact <lemma of Proofs/OverbookFacts.v>]. Per scheduling round of the
+   model of eudoxia/scheduler/overbook.py ([overbook_step]); [ob_rounds]: a sequence of rounds threading
+   the scheduler state (executor states arbitrary). *)
 From Coq Require Import List ZArith QArith.
-From Eudoxia Require Import Model.Sched.
-Example C18_placeholder : ss_queue init_sstate = nil.
+Import ListNotations.
+From Eudoxia Require Import Model.Types Model.Dag Model.Lifecycle Model.Container Model.Pool Model.Executor
+  Model.Sched Proofs.NaiveFacts Proofs.OverbookFacts.
+Close Scope Q_scope.
+Close Scope Z_scope.
+
+Theorem C18_no_suspend : forall C s e results newp s' w' susps asgs,
+  overbook_step C s e results newp = Ok (s', w', susps, asgs) -> susps = [].
+Proof. exact ob_no_suspend. Qed.
+Print Assumptions C18_no_suspend.
+
+(* every container: exactly one operator (assignable when the container is created), one CPU, a memory
+   limit equal to the whole pool's RAM; its pipeline has fewer than three failed containers *)
+Theorem C18_shape : forall C s e results newp s' w' susps asgs,
+  overbook_step C s e results newp = Ok (s', w', susps, asgs) ->
+  forall a, In a asgs ->
+  exists o p wk,
+    a_ops a = [o] /\ a_cpu a = 1%Z /\
+    In p (e_pools e) /\ a_pool a = Z.of_nat (p_id p) /\ a_ram a = p_max_ram p /\
+    a_prio a = prio_of_pipe C (op_pipe (S_of C) o) /\
+    asteps (S_of C) (e_world e) wk /\ asteps (S_of C) wk w' /\
+    assignable (st_of wk o) = true /\
+    (assoc_get (op_pipe (S_of C) o) (ss_fail s') < max_failures)%Z /\
+    (exists w1, mk_assignment C wk a = Ok w1 /\ asteps (S_of C) w1 w') /\
+    (In o (ss_queue s) \/
+     exists k, (In k newp \/ exists r, In r results /\ r_pipe C r = k) /\
+               In o (get_ops (S_of C) (e_world e) k assignable true)).
+Proof. exact ob_shape. Qed.
+Print Assumptions C18_shape.
+
+(* ... a ready one: queued operators have completed parents (an invariant of the queue), and so has every
+   operator at the moment its container is created *)
+Theorem C18_ready : forall C s e results newp s' w' susps asgs,
+  overbook_step C s e results newp = Ok (s', w', susps, asgs) ->
+  queue_ready C (e_world e) (ss_queue s) ->
+  queue_ready C w' (ss_queue s') /\
+  (forall a, In a asgs -> exists o wk,
+     a_ops a = [o] /\ asteps (S_of C) (e_world e) wk /\ asteps (S_of C) wk w' /\
+     assignable (st_of wk o) = true /\ parents_complete (S_of C) wk o = true).
+Proof. exact ob_ready. Qed.
+Print Assumptions C18_ready.
+
+(* CPU-bound: a pool gets at most as many containers in a round as it has free CPUs (with C03: a pool never
+   runs more containers than it has CPUs) *)
+Theorem C18_cpu_bound : forall C s e results newp s' w' susps asgs,
+  overbook_step C s e results newp = Ok (s', w', susps, asgs) ->
+  NoDup (map p_id (e_pools e)) ->
+  forall p, In p (e_pools e) ->
+  (Z.of_nat (to_pool asgs p) <= Z.max 0 (p_avail_cpu p))%Z /\
+  to_pool asgs p <= Z.to_nat (p_avail_cpu p) /\
+  sumZ (map a_cpu (filter (fun a => (a_pool a =? Z.of_nat (p_id p))%Z) asgs)) = Z.of_nat (to_pool asgs p).
+Proof. exact ob_cpu_bound. Qed.
+Print Assumptions C18_cpu_bound.
+
+(* after a round triggered by an arrival or a result: the queue is consumed from the front (assigned, or
+   abandoned pipelines); if something is kept, no pool has a CPU left *)
+Theorem C18_no_waiting_with_free_cpu : forall C s e results newp s' w' susps asgs,
+  overbook_step C s e results newp = Ok (s', w', susps, asgs) ->
+  (newp <> [] \/ results <> []) ->
+  exists proc pre,
+    ob_results C results (ob_proc0 newp) (ss_fail s) = Ok (proc, ss_fail s') /\
+    ob_queue C (e_world e) (ss_queue s) proc = pre ++ ss_queue s' /\
+    sublist (flat_map a_ops asgs) pre /\
+    Forall (fun o => (max_failures <= assoc_get (op_pipe (S_of C) o) (ss_fail s'))%Z \/
+                     In o (flat_map a_ops asgs)) pre /\
+    (forall o rest, ss_queue s' = o :: rest ->
+       (assoc_get (op_pipe (S_of C) o) (ss_fail s') < max_failures)%Z /\
+       assignable (st_of w' o) = true /\
+       (NoDup (map p_id (e_pools e)) ->
+        forall p, In p (e_pools e) -> (p_avail_cpu p - Z.of_nat (to_pool asgs p) < 1)%Z)).
+Proof. exact ob_no_waiting_with_free_cpu. Qed.
+Print Assumptions C18_no_waiting_with_free_cpu.
+
+(* failures are counted once per failed result; a pipeline with three failed containers is never assigned
+   again, in this round or in any later one *)
+Theorem C18_fail_counts : forall C s e results newp s' w' susps asgs,
+  overbook_step C s e results newp = Ok (s', w', susps, asgs) ->
+  forall k, assoc_get k (ss_fail s') = (assoc_get k (ss_fail s) + Z.of_nat (fail_count C k results))%Z.
+Proof. exact ob_fail_counts. Qed.
+Print Assumptions C18_fail_counts.
+
+Theorem C18_abandon_after_three : forall C s e results newp s' w' susps asgs,
+  overbook_step C s e results newp = Ok (s', w', susps, asgs) ->
+  forall a o, In a asgs -> In o (a_ops a) ->
+  (assoc_get (op_pipe (S_of C) o) (ss_fail s') < max_failures)%Z /\
+  (assoc_get (op_pipe (S_of C) o) (ss_fail s) < max_failures)%Z.
+Proof. exact ob_abandon_after_three. Qed.
+Print Assumptions C18_abandon_after_three.
+
+Theorem C18_abandoned_forever : forall C s l s' k,
+  ob_rounds C s l s' -> (max_failures <= assoc_get k (ss_fail s))%Z ->
+  forall asgs a o, In asgs l -> In a asgs -> In o (a_ops a) -> op_pipe (S_of C) o <> k.
+Proof. exact ob_abandoned_forever. Qed.
+Print Assumptions C18_abandoned_forever.
+
+Example C18_max_failures_is_three : max_failures = 3%Z.
 Proof. reflexivity. Qed.
-Print Assumptions C18_placeholder.
